@@ -62,7 +62,8 @@ type streamItem struct {
 // read performs one Read of the subscriber's reader and projects the stream to (block id, obsolete flag).
 func (rd *Reader) read() ([]streamItem, error) {
 	var items []streamItem
-	if rd.kind == "chain" {
+	if rd.kind == "chain" || rd.kind == "event" || rd.kind == "transfer" {
+		// event / transfer subscribers: the block-level stream comes from a shadow chain reader stepped in lockstep
 		blocks, err := rd.rd.Read()
 		if err != nil {
 			return nil, err
@@ -342,10 +343,13 @@ func (r *Runner) QBest() {
 
 func (r *Runner) NewReader(start int) {
 	s := r.S
-	kind := []string{"chain", "chain", "block", "beat", "beat2"}[r.R.Intn(5)]
+	kind := []string{"chain", "chain", "block", "beat", "beat2", "event", "transfer"}[r.R.Intn(7)]
 	rd := &Reader{kind: kind, pos: s.ID(start), stack: s.Path(start), start: start}
 	if kind == "chain" {
 		rd.rd = s.Repo.NewBlockReader(s.ID(start))
+	} else if kind == "event" || kind == "transfer" {
+		rd.rd = s.Repo.NewBlockReader(s.ID(start))
+		rd.api = subscriptions.VerifNewReader(kind, s.Repo, s.ID(start), nil)
 	} else {
 		if r.caches == nil {
 			r.caches = subscriptions.VerifNewCaches(1000)
@@ -382,6 +386,9 @@ func (r *Runner) StepReader(rd *Reader) bool {
 		r.T.fail("reader-error", fmt.Sprintf("BlockReader.Read from a known block failed: %v", err))
 		rd.lost = true
 		return false
+	}
+	if rd.kind == "event" || rd.kind == "transfer" {
+		r.checkLogStream(rd, blocks)
 	}
 	var l []string
 	obs := 0
@@ -433,6 +440,52 @@ func (r *Runner) StepReader(rd *Reader) bool {
 }
 
 func (r *Runner) classify2(err error) string { return "err" }
+
+// checkLogStream: an event / transfer subscriber (match-all filter) must receive, for every block of the block-level
+// stream and in that order, one message per event / transfer of the block's receipts, each carrying the block's
+// obsolete flag — so that dropping the obsolete ones leaves exactly the logs of the canonical chain.
+func (r *Runner) checkLogStream(rd *Reader, blocks []streamItem) {
+	s := r.S
+	msgs, _, err := rd.api.Read()
+	if err != nil {
+		r.T.fail(rd.kind+"-reader-error", fmt.Sprintf("%s subscription reader failed: %v", rd.kind, err))
+		return
+	}
+	var got, want []string
+	for _, m := range msgs {
+		switch v := m.(type) {
+		case *api.EventMessage:
+			got = append(got, fmt.Sprintf("%s/%s/%d/%s", N32(v.Meta.BlockID), N32(v.Meta.TxID), v.Meta.ClauseIndex, hx.B(v.Obsolete)))
+		case *api.TransferMessage:
+			got = append(got, fmt.Sprintf("%s/%s/%d/%s", N32(v.Meta.BlockID), N32(v.Meta.TxID), v.Meta.ClauseIndex, hx.B(v.Obsolete)))
+		default:
+			got = append(got, fmt.Sprintf("unexpected %T", m))
+		}
+	}
+	for _, b := range blocks {
+		idx, ok := s.ByID[b.id]
+		if !ok {
+			continue
+		}
+		txs := s.Blocks[idx].Transactions()
+		for i, rc := range s.Receipts[idx] {
+			for ci, o := range rc.Outputs {
+				n := len(o.Events)
+				if rd.kind == "transfer" {
+					n = len(o.Transfers)
+				}
+				for k := 0; k < n; k++ {
+					want = append(want, fmt.Sprintf("%s/%s/%d/%s", N32(b.id), N32(txs[i].ID()), ci, hx.B(b.obsolete)))
+				}
+			}
+		}
+	}
+	if strings.Join(got, ",") != strings.Join(want, ",") {
+		r.T.fail(rd.kind+"-reader-stream-not-logs-of-blocks", fmt.Sprintf("%s subscriber (start #%d): streamed %d messages %v, the streamed blocks' receipts prescribe %d: %v",
+			rd.kind, rd.start, len(got), got, len(want), want))
+	}
+	r.Cov.Add("reader:"+rd.kind+"-messages", len(got))
+}
 
 func top(s []int) any {
 	if len(s) == 0 {
